@@ -5,3 +5,6 @@ import FpVerif.Properties.C17
 #print axioms Fp.C17.inv_run
 #print axioms Fp.C17.serve_returns_ErrServerClosed
 #print axioms Fp.C17.returns_after_drain
+#print axioms Fp.C17.handshake_guard
+#print axioms Fp.C17.attempt_after_cancel_refused
+#print axioms Fp.C17.unguarded_served_witness
